@@ -190,6 +190,31 @@ let do_gen rest =
                      (if x_swok_b g (inl = "1") then 1 else 0))
   | _ -> failwith "gen: args"
 
+(* printing a grammar back in the syntax the harness uses *)
+let rec sexp_of_expr e =
+  let zs c = string_of_int (int_of_z c) and ns n = string_of_int (int_of_nat n) in
+  let many tag es = "(" ^ tag ^ " " ^ String.concat " " (List.map sexp_of_expr es) ^ ")" in
+  match e with
+  | EDot -> "(dot)" | EChar c -> "(c " ^ zs c ^ ")" | ERange (a, b) -> "(r " ^ zs a ^ " " ^ zs b ^ ")"
+  | EName r -> "(n " ^ ns r ^ ")" | EPred k -> "(p " ^ ns k ^ ")" | EState _ -> "(s 0)" | EAct k -> "(a " ^ ns k ^ ")"
+  | ENil -> "(nil)" | ESeq es -> many "seq" es | EAlt es -> many "alt" es
+  | EAnd e1 -> "(and " ^ sexp_of_expr e1 ^ ")" | ENot e1 -> "(not " ^ sexp_of_expr e1 ^ ")"
+  | EQuery e1 -> "(q " ^ sexp_of_expr e1 ^ ")" | EStar e1 -> "(star " ^ sexp_of_expr e1 ^ ")"
+  | EPlus e1 -> "(plus " ^ sexp_of_expr e1 ^ ")" | EPush e1 -> "(push " ^ sexp_of_expr e1 ^ ")"
+  | ESwitch (cs, d) ->
+    "(sw " ^ String.concat " " (List.map (fun (ks, b) -> "(case (" ^ String.concat " " (List.map zs ks) ^ ") " ^ sexp_of_expr b ^ ")") cs)
+    ^ (if cs = [] then "" else " ") ^ "(default " ^ sexp_of_expr d ^ "))"
+
+let sexp_of_grammar g =
+  "(g " ^ String.concat " " (List.map (function RBody b -> "(B " ^ sexp_of_expr b ^ ")" | RAct k -> "(A " ^ string_of_int (int_of_nat k) ^ ")" | RNil -> "(N)") g) ^ ")"
+
+(* opt <gid> : the model's -switch pass applied to a stored grammar *)
+let do_opt rest =
+  let gid = String.trim rest in
+  let (g, _) = Hashtbl.find grammars gid in
+  let (_, stable) = x_fs_table g in
+  print_endline (Printf.sprintf "opt %s :: stable=%d %s" gid (if stable then 1 else 0) (sexp_of_grammar (x_optimize g)))
+
 (* diag <id> (rg (def name expr) ...) *)
 let do_diag rest =
   let i = String.index rest ' ' in
@@ -239,6 +264,7 @@ let () =
            | "gen" -> do_gen rest
            | "cli" -> do_cli rest
            | "diag" -> do_diag rest
+           | "opt" -> do_opt rest
            | _ -> print_endline ("ERR unknown command " ^ cmd))
         with
         | Stack_overflow -> print_endline ("ERR stack overflow: " ^ (String.sub line 0 (min 60 (String.length line))))
